@@ -1,6 +1,6 @@
 import GmqttVerif.Model.BrokerHooks
 import GmqttVerif.Model.Hooks
-import GmqttVerif.Generated.Facts
+import GmqttVerif.Generated.Hooks
 import Driver.Broker
 /-
   C14 oracle: the broker model with hook verdicts (`Model/BrokerHooks.lean`) and the wrapper fold (`Model/Hooks.lean`)
